@@ -38,9 +38,10 @@ def revolveVol6 : List (Rat × Rat) → List Dir → Rat
 /-- rotate about the z axis by the direction (c, s) -/
 def rotZ (c s : Rat) (p : P) : P := (c * p.1 - s * p.2.1, s * p.1 + c * p.2.1, p.2.2)
 
-/-! ### faces of `revolve`: `single` (with the dropped zero-area triangles) repeated per slice, modulo the vertex count -/
+/-! ### faces of `revolve`: `single` (with the dropped zero-area triangles) repeated per slice, modulo the vertex count.
+    The quad of the last profile point joins it to the first point of the same two slices (`single[-2:]`). -/
 def single (per : Nat) (keep : Nat → Bool) : List Face :=
-  ((List.range per).flatMap (fun i => [(i, per + i, i + 1), (i + 1, per + i, per + i + 1)])).zipIdx.filterMap
+  ((List.range per).flatMap (fun i => [(i, per + i, (i + 1) % per), ((i + 1) % per, per + i, per + (i + 1) % per)])).zipIdx.filterMap
     (fun fi => if keep fi.2 then some fi.1 else none)
 def revolveFaces (per slices nVerts : Nat) (keep : Nat → Bool) : List Face :=
   (List.range slices).flatMap (fun j =>
